@@ -77,7 +77,7 @@ def main(tier, seed):
     for i in range(len(base)):
         for j in range(0, len(base), 7):
             a, bq = rqs[i], rqs[j]
-            if a.is_hashable() and bq.is_hashable() and a._hash != () and bq._hash != ():
+            if not has_map(qs[i]) and not has_map(qs[j]):
                 comm_checked += 1
                 if not ((a & bq) == (bq & a)) or not ((a | bq) == (bq | a)):
                     if len(direct_bad) < 5:
